@@ -422,6 +422,23 @@ Definition device_count (start_size end_size : Z) : option Z :=
 Definition svg_doc_slice (off len datalen : Z) : option (option Z) :=
   Some (if off + len <=? 18446744073709551615 then (if off + len <=? datalen then Some len else None) else None).
 
+(* skrifa autohint/topo/segments.rs link_segments_default: the score of linking two opposite segments.
+   max_width : Option<i32> (None and Some(0) both mean "no standard width": unwrap_or_default, then != 0);
+   dist = pos2 - pos1 > 0 (i16 positions), len >= len_threshold >= 1, len_score = 6000 * upem / 2048. *)
+Definition derived_constant (upem value : Z) : option Z :=
+  do m <- mul32 value upem ;; div32 m 2048.
+Definition link_score (max_width : option Z) (dist len len_score : Z) : option Z :=
+  let mw := match max_width with Some w => w | None => 0 end in
+  do dd <- (if negb (mw =? 0) then
+              do q <- div32 (wrap_s 32 (Z.shiftl dist 10)) mw ;;        (* (dist << 10) / max_width *)
+              do delta <- sub32 q 1024 ;;
+              if 10000 <? delta then Some 32000
+              else if 0 <? delta then do sq <- mul32 delta delta ;; div32 sq 3000
+              else Some 0
+            else Some dist) ;;
+  do l <- div32 len_score len ;;
+  add32 dd l.
+
 (* ---- correspondence case format (harness/src/bin/c20.rs): (op, args, result);
         result [] = the real function panicked, [v..] = returned value(s) ---- *)
 Definition o1 (r : option Z) : list Z := match r with Some v => [v] | None => [] end.
